@@ -7,11 +7,13 @@ package absnfs
 //@ prop C28
 //@ ensures [server-or-error] isnil(result1) <==> result0 != nil
 //@ ensures [options-kept] isnil(result1) ==> result0.options.UseRecordMarking == options.UseRecordMarking && result0.options.Port == options.Port && result0.handler == nil
+//@ ensures [no-connections] isnil(result1) ==> connInv(result0) && connKeys(result0)
 
 //@ func Server.SetHandler
 //@ prop C28
 //@ requires s != nil
 //@ ensures [handler] s.handler == handler && s.options.UseRecordMarking == old(s.options.UseRecordMarking)
+//@ ensures [conns-untouched] s.activeConns == old(s.activeConns) && mapsame(s.activeConns) && s.connCount == old(s.connCount)
 
 //@ func AbsfsNFS.Export
 //@ prop C28
@@ -21,7 +23,7 @@ package absnfs
 
 //@ func Server.Listen
 //@ prop C28 C30
-//@ requires s != nil && (s.handler != nil ==> curPolicy(s.handler) != nil && curTuning(s.handler) != nil)
+//@ requires s != nil && (s.handler != nil ==> curPolicy(s.handler) != nil && curTuning(s.handler) != nil) && connInv(s) && connKeys(s)
 // starting the listener never changes the framing mode or the handler
 //@ ensures [keeps-framing] s.options.UseRecordMarking == old(s.options.UseRecordMarking) && s.handler == old(s.handler)
 //@ ensures [needs-handler] old(s.handler) == nil ==> !isnil(result)
@@ -47,7 +49,7 @@ package absnfs
 
 //@ func Server.StartWithPortmapper
 //@ prop C28
-//@ requires s != nil && (s.handler != nil ==> curPolicy(s.handler) != nil && curTuning(s.handler) != nil)
+//@ requires s != nil && (s.handler != nil ==> curPolicy(s.handler) != nil && curTuning(s.handler) != nil) && connInv(s) && connKeys(s)
 // record marking is switched on before the listener is started
 //@ callassert Server.Listen : [flag-set-before-listen] s.options.UseRecordMarking
 //@ ensures [record-marking] isnil(result) ==> s.options.UseRecordMarking
@@ -58,6 +60,8 @@ package absnfs
 //@ thread
 //@ abstract
 //@ requires s != nil && connInv(s) && (s.handler != nil ==> curTuning(s.handler) != nil)
+// C17: however the connection ends (either framing, or a panic recovered here), it is unregistered
+//@ ensures [unregistered-at-exit] {C17} !has(s.activeConns, conn)
 //@ callassert Server.handleConnection : [raw-only-when-configured] !s.options.UseRecordMarking
 //@ callassert Server.handleConnectionWithRecordMarking : [record-marking-when-configured] s.options.UseRecordMarking
 
@@ -78,10 +82,10 @@ package absnfs
 //@ requires s != nil
 
 //@ func Server.Listen$2
-//@ prop C28
+//@ prop C28 C17
 //@ thread
 //@ abstract
-//@ requires s != nil
+//@ requires s != nil && connInv(s) && connKeys(s) && (s.handler != nil ==> curTuning(s.handler) != nil)
 
 // the framing flag, the handler and the listener's TLS settings are stable once the server runs: no
 // function other than the constructors/starters below contains a store to them
